@@ -171,6 +171,9 @@ func (in *Interp) dispatch(s *State, th *Thread, f *Frame, c *callee, at ssa.Ins
 	if !ok && in.cfg.Models[key] {
 		h, ok = optIntrinsics[key]
 	}
+	if !ok && in.cfg.Models["time-as-milliseconds"] {
+		h, ok = timeMsModel[key]
+	}
 	if ok {
 		v, forks, done := h(in, s, &callCtx{th: th, f: f, at: at, args: c.args, retTo: retTo, rk: rk, fn: fn})
 		if forks != nil {
